@@ -89,6 +89,10 @@ pub mod verif {
         store::{MemoryStore, MemoryStoreConfig},
         types::{ConnectionType, Distance, KademliaPeer, Key},
     };
+    /// The prost-generated `kademlia.proto` messages decoded by `KademliaMessage::from_bytes`.
+    pub use super::schema::kademlia::{
+        Message as SchemaMessage, Peer as SchemaPeer, Record as SchemaRecord,
+    };
     pub use super::{
         message::KademliaMessage,
         query::{QueryAction, QueryEngine, VerifQueryDump},
